@@ -76,6 +76,16 @@ class Builder:
             kws = {k: (Silent(spec['kwbind'][k]) if k in spec.get('kwsilent', []) else spec['kwbind'][k]) for k in order}
             pos = [Silent(a) if i in spec.get('possilent', []) else a for i, a in enumerate(spec.get('posbind', []))]
             f = Function(f, *pos, **kws)
+        if spec.get('combined'):
+            # hash_by_value(prepare=..., compute=...): the intermediate value is hashed by value; `prepare` may be @impure
+            from .codec import atom_name
+            base = atom_name(f, self.world) or 'combined'
+            pf = self.world.fn(base + '#prepare', impure=spec['combined'] == 'impure', params=list(spec.get('args', [])))
+            cf = self.world.fn(base + '#compute', params=['v'])
+            f = hash_by_value(prepare=impure(pf) if spec['combined'] == 'impure' else pf, compute=cf)
+            if spec.get('opt'):
+                f = optional(f)
+            return f
         if spec.get('byvalue') and not spec.get('byvalue_outer'):
             f = hash_by_value(f)
         if spec.get('impure'):
